@@ -40,7 +40,7 @@ func main() {
 			return
 		}
 	}
-	n := 160
+	n := 130
 	if a.Thorough() {
 		n = 1500
 	}
